@@ -12,12 +12,12 @@ trap "git -C /repo worktree remove --force $W" EXIT
 place=$(head -1 $src/demo_test.go | sed -n 's#.*place in: *\([^ ]*\).*#\1#p'); [ -z "$place" ] && place=.
 rflag=""; case $id in C12*) rflag="-race";; esac
 cp $src/demo_test.go $W/$place/zz_seed_demo_test.go
-clean=$(cd $W && go test $rflag -vet=off -count=1 ./$place 2>&1 | grep -E "^(ok|FAIL)" | tail -1 | cut -c1-4)
+clean=$(cd $W && go test $rflag -vet=off -count=1 ./$place 2>&1 | grep -aE "^(ok|FAIL)" | tail -1 | cut -c1-4)
 rm $W/$place/zz_seed_demo_test.go
 if ! git -C $W apply $src/patch.diff 2>/tmp/seedval.err; then echo "$id APPLY-FAIL $(head -1 /tmp/seedval.err)"; exit 1; fi
-suite=$(cd $W && go test -vet=off -count=1 ./... 2>&1 | grep -cE "^(FAIL|--- FAIL)")
+suite=$(cd $W && go test -vet=off -count=1 ./... 2>&1 | grep -acE "^(FAIL|--- FAIL)")
 cp $src/demo_test.go $W/$place/zz_seed_demo_test.go
-with=$(cd $W && go test $rflag -vet=off -count=1 ./$place 2>&1 | grep -E "^(ok|FAIL)" | tail -1 | cut -c1-4)
+with=$(cd $W && go test $rflag -vet=off -count=1 ./$place 2>&1 | grep -aE "^(ok|FAIL)" | tail -1 | cut -c1-4)
 echo "$id demo_unchanged=[$clean] suite_fail_lines_with_patch=$suite demo_with_patch=[$with]"
 if [ "$clean" = "ok  " ] && [ "$suite" = "0" ] && [ "$with" = "FAIL" ]; then
   d=/verif/seeded/$id; mkdir -p $d; cp $src/patch.diff $src/demo_test.go $d/
